@@ -179,7 +179,7 @@ def convertToUnitsDtype (d : Dtype) : Except Err Dtype :=
 def inBaseDtype (d : Dtype) : Except Err Dtype :=
   if P.inBaseItemSize then inUnitsDtype N P d else mulPyFloatDtype N d
 
-/-- `out=` handling of `__array_ufunc__`: an integer `out` buffer is relabelled to
+/-- `out=` handling of `__array_ufunc__` (`_float_out_view`): an integer `out` buffer is relabelled to
     `"f" + str(itemsize)` (TypeError `'f1'` for 1-byte items) -/
 def outPromote (o : Dtype) : Except Err Dtype :=
   if P.outIntKinds.contains o.kind then npDtype N P.outKind o.size else .ok o
@@ -202,15 +202,19 @@ def binaryResultDtype (d0 d1 : Dtype) (mixed comparison : Bool) : Except Err Dty
     | .error e => .error e
     | .ok r => if comparison then .ok boolDtype else .ok r
 
-/-- `ufunc(x0, x1, out=o)`: `out` promotion first, then the operand conversion, then NumPy must
-    be able to write the result into the (promoted) buffer -/
+/-- `ufunc(x0, x1, out=o)`: the operand conversion comes first (with the unit checks), then the
+    `out` promotion (`_float_out_view(out)`, called just before the kernel), then NumPy must find a
+    loop and be able to write the result into the (promoted) buffer -/
 def binaryOutDtype (d0 d1 o : Dtype) (mixed : Bool) : Except Err Dtype :=
-  match outPromote N P o with
+  match (if mixed then binaryOperandDtype N P d1 else .ok d1) with
   | .error e => .error e
-  | .ok o' =>
-    match binaryResultDtype N P d0 d1 mixed false with
+  | .ok c =>
+    match outPromote N P o with
     | .error e => .error e
-    | .ok r => if N.canCastSameKind.contains (r, o') then .ok o' else .error .TypeError
+    | .ok o' =>
+      match resultTypeOf N d0 c with
+      | .error e => .error e
+      | .ok r => if N.canCastSameKind.contains (r, o') then .ok o' else .error .TypeError
 
 /-- `x.to_equivalent(unit, equiv)` across dimensions: the equivalence's formula runs ufuncs
     against float64 constants (NumPy promotion), then `in_units` -/
